@@ -4,7 +4,8 @@ Line-protocol driver for the C20 model (Asynkit/Model/CoroState.lean).  See harn
   new co|gc|ag
   op <send|throw|close|aw asend|aw athrow|aw aclose|a.send|a.throw|a.close> <await|yield|exit|->
      (the last word is what the body did when resumed, as logged by the body itself; `-` = not resumed)
-Output:  resumed=<0/1> | <observation while running (top frame)> | <same, from a callee> | <observation afterwards>
+Output:  resumed=<0/1> | <observation while running (top frame)> | <same, from a callee> |
+         <same, from the clean-up code of a callee while the op is delivered> | <observation afterwards>
          observation = f r a s n k <inspect state> new= susp= fin=
 Run:  lake env lean --run Drivers/CoroState.lean < ops.txt
 -/
@@ -30,6 +31,8 @@ def parseOp : List String → Option Op
   | ["send"] => some .send
   | ["throw"] => some .throw
   | ["close"] => some .close
+  | ["throwx"] => some .throwX
+  | ["a.throwx"] => some .awThrowX
   | ["aw", "asend"] => some (.newAw .asend)
   | ["aw", "athrow"] => some (.newAw .athrow)
   | ["aw", "aclose"] => some (.newAw .aclose)
@@ -44,7 +47,7 @@ def dstep (st : DrvSt) (line : String) : DrvSt × String :=
   | ["new", k] =>
     let kind := match k with | "co" => Kind.coroutine | "gc" => .genCoroutine | _ => .asyncGen
     ({ k := kind, d := initial },
-      s!"resumed=0 | {showObs kind initial.st} | {showObs kind initial.st} | {showObs kind initial.st}")
+      s!"resumed=0 | {showObs kind initial.st} | {showObs kind initial.st} | {showObs kind initial.st} | {showObs kind initial.st}")
   | "op" :: rest =>
     let resp := rest.getLast?.getD "-"
     match parseOp rest.dropLast with
@@ -53,10 +56,10 @@ def dstep (st : DrvSt) (line : String) : DrvSt × String :=
       let r : Resp := match resp with | "await" => .await | "yield" => .yield | _ => .exit
       let x := deliver st.k st.d op r
       -- the body's own log must agree with the model on whether it was resumed
-      if x.resumed && resp == "-" then (st, "resumed=1 | model expects the body to run | - | -")
+      if x.resumed && resp == "-" then (st, "resumed=1 | model expects the body to run | - | - | -")
       else
         ({ st with d := x.after },
-          s!"resumed={b2s x.resumed} | {showObs st.k x.mid} | {showObs st.k x.mid} | {showObs st.k x.after.st}")
+          s!"resumed={b2s x.resumed} | {showObs st.k x.mid} | {showObs st.k x.mid} | {showObs st.k x.midCleanup} | {showObs st.k x.after.st}")
   | _ => (st, "bad-op")
 
 partial def loop (h : IO.FS.Stream) (out : IO.FS.Stream) (st : DrvSt) : IO Unit := do
